@@ -93,6 +93,23 @@ class AbstractContainer(abstract.GeomdlBase):
         return self
 
     @property
+    def dimension(self):
+        """ Spatial dimension.
+
+        The spatial dimension of a container is the spatial dimension of the geometries which it contains.
+
+        Please refer to the `wiki <https://github.com/orbingol/NURBS-Python/wiki/Using-Python-Properties>`_ for details
+        on using this class member.
+
+        :getter: Gets the spatial dimension, e.g. 2D, 3D, etc.
+        :type: int
+        """
+        # The dimension of the elements may have changed since they were added (e.g. operations.add_dimension)
+        if self._elements:
+            return self._elements[0].dimension
+        return self._dimension
+
+    @property
     def pdimension(self):
         """ Parametric dimension.
 
